@@ -416,3 +416,30 @@ where
         f(context.mutation_context())
     }
 }
+
+/// Verification hook: a read-only snapshot of the collector state (only with
+/// `--cfg gc_arena_verif`). Addresses are the values of [`crate::Gc::as_ptr`].
+#[cfg(gc_arena_verif)]
+#[derive(Debug, Clone, PartialEq, Eq)]
+pub struct VerifSnapshot {
+    /// 0 = sleep, 1 = mark, 2 = sweep, 3 = drop
+    pub phase: u8,
+    pub root_needs_trace: bool,
+    /// The all-objects list in list order: (address, colour, is_live, needs_trace), with colour
+    /// 0 = white, 1 = white-weak, 2 = gray, 3 = black.
+    pub all: alloc::vec::Vec<(usize, u8, bool, bool)>,
+    pub gray: alloc::vec::Vec<usize>,
+    pub gray_again: alloc::vec::Vec<usize>,
+    pub sweep: Option<usize>,
+    pub sweep_prev: Option<usize>,
+}
+
+#[cfg(gc_arena_verif)]
+impl<R> Arena<R>
+where
+    R: for<'a> Rootable<'a>,
+{
+    pub fn verif_snapshot(&self) -> VerifSnapshot {
+        self.context.verif_snapshot()
+    }
+}
